@@ -2,6 +2,7 @@ CONSTANTS
     Shape <- Shape3
     EpochOrderStrict = FALSE
     CacheSound = FALSE
+    FetchedHashChecked = FALSE
     MaxAlter = 1
     TamperFields = {"resign", "prev", "epoch", "avk", "params", "nextAvk", "nextParams", "sig"}
     MsgModes = {"k", "r"}
